@@ -1737,6 +1737,32 @@ func (f *Frame) privateAllocs() map[*ssa.Alloc]bool {
 				if x.X != v || !addrOnly(x, depth+1) {
 					return false
 				}
+			case *ssa.MakeClosure:
+				// captured by a closure that is only ever deferred in this function: the closure runs when
+				// this function returns and nobody else can hold it, so the variable stays private as long
+				// as the closure body itself only loads from / stores to it
+				crefs := x.Referrers()
+				if crefs == nil {
+					return false
+				}
+				for _, cr := range *crefs {
+					switch cr.(type) {
+					case *ssa.Defer, *ssa.DebugRef:
+					default:
+						return false
+					}
+				}
+				cf, ok := x.Fn.(*ssa.Function)
+				if !ok {
+					return false
+				}
+				for bi, bv := range x.Bindings {
+					if bv == v {
+						if bi >= len(cf.FreeVars) || !addrOnly(cf.FreeVars[bi], depth+1) {
+							return false
+						}
+					}
+				}
 			default:
 				return false
 			}
